@@ -258,7 +258,9 @@ pub fn lazy_h<Tr: ?Sized + Trait + Cloneable, B: Backend, BY: Backend, E: Elem +
                         consume!(l3.clone())
                     }
                     vp_assert!(elems::total_clones() == u + 1, "VP: each lazy clone consumption must clone exactly once");
-                    vp_assert!(elems::clones_from(sid) as usize == u + 1, "VP: lazy clone must clone the original source");
+                    if !E::ZST {
+                        vp_assert!(elems::clones_from(sid) as usize == u + 1, "VP: lazy clone must clone the original source");
+                    }
                 }
                 u += 1;
             }
